@@ -57,6 +57,10 @@ class ConstraintUniqueVecModel(ConstraintModel):
                 else:
                     and_e = btor.And(and_e, v_ne)
 
+        if and_e is None:
+            # A single vector is trivially unique
+            and_e = btor.Const(1, 1)
+
         return and_e
     
     def _mkVecNotEq(self, btor, v1, v2):
@@ -70,6 +74,9 @@ class ConstraintUniqueVecModel(ConstraintModel):
                 ret = ne.build(btor)
             else:
                 ret = btor.Or(ne.build(btor), ret)
+        if ret is None:
+            # Two empty vectors are equal
+            ret = btor.Const(0, 1)
         return ret
     
     def accept(self, visitor):
